@@ -176,7 +176,10 @@ class World(object):
             first = next((i for i, l in enumerate(lines) if not l.startswith('#')), len(lines))
             for _ in range(n):
                 kind = rng.choice(['glued', 'int', 'short1', 'short4', 'float', 'word'])
-                if self.params['profile'] and kind in ('short4', 'float'):
+                if self.params['profile'] and kind in ('short4', 'float', 'glued'):
+                    # in a profile line the last column is free text: a glued remainder can still parse
+                    # (as a line of the run whose number an earlier column happens to be) - that is a
+                    # question of C09 for profile files, not of the rewrite
                     kind = 'short1'
                 src = rng.choice(data) if data else '1\t1\t2.000000\tms\ttotal'
                 if kind == 'glued':
@@ -750,7 +753,7 @@ def run(ck):
                     run_case_file(ck, acc, w, idx, tmp_same, tmp_shm)
                     acc.count('corpus:' + fn[:-5])
                     idx += 1
-        n_scn = 8 if quick else 60
+        n_scn = 8 if quick else 160
         n_sel = 9 if quick else 25
         jobs = [(i, gen_params(ck.rng, i, ck.tier), ck.seed, ck.tier, n_sel, ck.scratch, tmp_same, tmp_shm)
                 for i in range(n_scn)]
